@@ -102,6 +102,7 @@ func judgeDialogue(evs []Event) []string {
 				if j.state != "idle" {
 					j.problem("AUTH inside a transaction")
 				}
+			case "auth-abort":
 			default:
 				if j.lastVerb != "AUTH" && j.lastVerb != "auth-step" {
 					j.problem("unknown command %q", e.Line)
